@@ -475,7 +475,7 @@ def gen_chunk(rng, t, h, w, depth=0):
     if k == "P":
         if t[2] < 0:
             raise NoValue
-        return [rng.choice([0, t[2], rng.randint(0, t[2])])] + [t[1]] * rng.choice([0, 0, 1, max(0, t[3]), rng.randint(0, max(0, t[3]))])
+        return [rng.choice([0, t[2], rng.randint(0, t[2])])] + [t[1]] * min(max(0, t[3]), rng.choice([0, 0, 1, max(0, t[3]), rng.randint(0, max(0, t[3]))]))
     if k == "M":
         if t[1] < 1:
             raise NoValue
